@@ -581,6 +581,12 @@ func buildParamsLab() (*Lab, map[string][]pcell, error) {
 		pkgs = append(pkgs, LabPkg{Name: "par_" + fw + "_lead", Spec: leadSpec, FW: fw,
 			Cfg: codegen.Configuration{Generate: fwGenerate(fw, codegen.GenerateOptions{Models: true, Client: true})}})
 	}
+	// one operation with SEVERAL parameters of every kind in every location: each handler argument must be the value
+	// supplied for that parameter (no sharing of scratch variables between the blocks of a wrapper)
+	for _, fw := range Frameworks {
+		pkgs = append(pkgs, LabPkg{Name: "par_" + fw + "_multi", Spec: multiSpec, FW: fw,
+			Cfg: codegen.Configuration{Generate: fwGenerate(fw, codegen.GenerateOptions{Models: true, Client: true})}})
+	}
 	// an operation that takes query parameters of every kind AND a form-encoded body: the body is not where query
 	// parameters live, whatever its fields are called
 	for _, fw := range Frameworks {
@@ -667,3 +673,32 @@ var formSpec = []byte(`{"openapi":"3.0.3","info":{"title":"form","version":"1"},
 "requestBody":{"content":{"application/x-www-form-urlencoded":{"schema":{"type":"object","properties":{"q":{"type":"string"}}}}}},
 "responses":{"204":{"description":"ok"}}}}},
 "components":{"schemas":{"Filter":{"type":"object","properties":{"limit":{"type":"integer"}}}}}}`)
+
+// multiParams: name, location, kind (pass / styled-string / styled-int / json) of the parameters of the one operation of multiSpec
+var multiParams = [][3]string{
+	{"qp1", "query", "pass"}, {"qp2", "query", "pass"}, {"qs1", "query", "string"}, {"qs2", "query", "string"}, {"qn1", "query", "int"}, {"qn2", "query", "int"}, {"qj1", "query", "json"}, {"qj2", "query", "json"},
+	{"X-Hp1", "header", "pass"}, {"X-Hp2", "header", "pass"}, {"X-Hs1", "header", "string"}, {"X-Hs2", "header", "string"}, {"X-Hn1", "header", "int"}, {"X-Hn2", "header", "int"},
+	{"cp1", "cookie", "pass"}, {"cp2", "cookie", "pass"}, {"cs1", "cookie", "string"}, {"cs2", "cookie", "string"}, {"cn1", "cookie", "int"}, {"cn2", "cookie", "int"}, {"cj1", "cookie", "json"}, {"cj2", "cookie", "json"},
+}
+
+var multiSpec = func() []byte {
+	var ps []any
+	for _, p := range multiParams {
+		m := map[string]any{"name": p[0], "in": p[1]}
+		switch p[2] {
+		case "pass":
+			m["content"] = map[string]any{"text/plain": map[string]any{"schema": map[string]any{"type": "string"}}}
+		case "string":
+			m["schema"] = map[string]any{"type": "string"}
+		case "int":
+			m["schema"] = map[string]any{"type": "integer"}
+		case "json":
+			m["content"] = map[string]any{"application/json": map[string]any{"schema": map[string]any{"$ref": "#/components/schemas/J"}}}
+		}
+		ps = append(ps, m)
+	}
+	b, _ := json.Marshal(map[string]any{"openapi": "3.0.3", "info": map[string]any{"title": "multi", "version": "1"},
+		"paths":      map[string]any{"/multi": map[string]any{"get": map[string]any{"operationId": "multi", "parameters": ps, "responses": map[string]any{"204": map[string]any{"description": "ok"}}}}},
+		"components": map[string]any{"schemas": map[string]any{"J": map[string]any{"type": "object", "properties": map[string]any{"k": map[string]any{"type": "string"}}}}}})
+	return b
+}()
